@@ -309,6 +309,27 @@ func genTok(optionMode string) func(ctx *Ctx) {
 			}
 			emit([]rune(sb.String()), "multi-line")
 		}
+		// mixed line-break styles with very short lines (a break two characters after another break, lone CR after LF ...)
+		short := []string{"a", "1", "b", "+", "", "ab", "7", " ", "x"}
+		brk := []string{"\n", "\r", "\r\n", "\n\r"}
+		for i := 0; i < n/4+8; i++ {
+			var sb strings.Builder
+			lines := 3 + ctx.Rnd.Intn(4)
+			for j := 0; j < lines; j++ {
+				if j > 0 {
+					sb.WriteString(brk[ctx.Rnd.Intn(4)])
+				}
+				sb.WriteString(short[ctx.Rnd.Intn(len(short))])
+			}
+			emit([]rune(sb.String()), "mixed-line-breaks")
+		}
+		for _, a := range brk {
+			for _, c := range []string{"a", "1", "+", ""} {
+				for _, b := range brk {
+					emit([]rune("x"+a+c+b+"y z"), "mixed-line-breaks")
+				}
+			}
+		}
 		for i := 0; i < n; i++ {
 			ln := 1 + ctx.Rnd.Intn(14)
 			var text []rune
